@@ -1861,3 +1861,100 @@ func init() {
 	registry["C06"].Meta.Rules["C06.20"] = txt + " (shared with C11.21)"
 	registry["C06"].Rules = append(registry["C06"].Rules, func(c *Ctx, r *Result) { shadowedCursorRule(c, r, "C06.20", 0) })
 }
+
+// ---- what is trimmed off the end was looked at (C06.21) ----
+//
+// s = s[:len(s)-1] on the read path drops the last byte of a decoded value. It is preceded, on every path, by a test of that
+// byte (s[len(s)-1] == 0: a terminator, padding). Dropped unconditionally, every variable-length string loses its last character.
+func tailTrimRule(c *Ctx, r *Result, rule string, floor int) {
+	readers := c.readerSet(r)
+	n := 0
+	for fn := range readers {
+		if fn.Blocks == nil {
+			continue
+		}
+		var fb *FB
+		k := 0
+		instrs(fn, func(in ssa.Instruction) {
+			sl, ok := in.(*ssa.Slice)
+			if !ok || sl.High == nil || sl.Low != nil {
+				return
+			}
+			switch t := sl.X.Type().Underlying().(type) {
+			case *types.Basic:
+				if t.Kind() != types.String {
+					return
+				}
+			case *types.Slice:
+				if b, isB := t.Elem().Underlying().(*types.Basic); !isB || b.Kind() != types.Uint8 {
+					return
+				}
+			default:
+				return
+			}
+			if fb == nil {
+				fb = c.FB(fn)
+			}
+			d := fb.lenLin(sl.X).add(fb.lin(sl.High), -1)
+			if !d.isConst() || d.C <= 0 || d.C > 8 {
+				return
+			}
+			n++
+			k++
+			// a dominating test that reads an element of X at len(X)-j
+			tested := false
+			for _, b := range fn.Blocks {
+				ifi, isIf := b.Instrs[len(b.Instrs)-1].(*ssa.If)
+				if !isIf || !(edgeDominates(b, b.Succs[0], sl.Block()) || edgeDominates(b, b.Succs[1], sl.Block())) {
+					continue
+				}
+				var reads func(v ssa.Value, depth int) bool
+				reads = func(v ssa.Value, depth int) bool {
+					if depth > 6 {
+						return false
+					}
+					switch x := v.(type) {
+					case *ssa.BinOp:
+						return reads(x.X, depth+1) || reads(x.Y, depth+1)
+					case *ssa.UnOp:
+						if ia, isIA := x.X.(*ssa.IndexAddr); isIA && x.Op == token.MUL {
+							return fb.canon(ia.X) == fb.canon(sl.X) || ia.X == sl.X
+						}
+						return reads(x.X, depth+1)
+					case *ssa.Index:
+						return x.X == sl.X
+					case *ssa.Lookup:
+						return x.X == sl.X
+					case *ssa.Convert:
+						return reads(x.X, depth+1)
+					case *ssa.Phi:
+						for _, e := range x.Edges {
+							if reads(e, depth+1) {
+								return true
+							}
+						}
+					case *ssa.Call:
+						for _, a := range x.Call.Args {
+							if a == sl.X {
+								return true // HasSuffix(s, ..), bytes.HasSuffix
+							}
+						}
+					}
+					return false
+				}
+				if reads(ifi.Cond, 0) {
+					tested = true
+				}
+			}
+			r.Check(tested, rule, fmt.Sprintf("%s#tail-trim-%d", c.Name(fn), k), c.InstrPos(sl), fmt.Sprintf("the last %d byte(s) are cut off behind a test that reads the value's own bytes", d.C))
+		})
+	}
+	if n < floor {
+		r.Shortfall(c, rule, fmt.Sprintf("%s: only %d tail trims found on the read path (expected >= %d)", rule, n, floor))
+	}
+}
+
+func init() {
+	registry["C06"].Meta.Rules["C06.21"] = "what is trimmed off the end was looked at: on the read path every reslice s[:len(s)-k] of a string or byte slice (k a small constant) is dominated by a test that reads s itself (the terminator or padding byte it removes); cut unconditionally, every variable-length string attribute loses its last character"
+	registry["C06"].Rules = append(registry["C06"].Rules, func(c *Ctx, r *Result) { tailTrimRule(c, r, "C06.21", 2) })
+}
